@@ -100,6 +100,22 @@ func Run(r *core.Run) {
 		}
 		cases = append(cases, cs...)
 	}
+	// a single verification slot (Parameters.SetConcurrency(1)): the parameter and proof fields that the
+	// concurrent dln-proof verifiers of ECDSA keygen round 2 / resharing round 4 consume
+	for _, p := range []plan{{"ecdsa-keygen-conc1", 1, ecFew, false}, {"ecdsa-resharing-conc1", 3, ecFew, false}} {
+		cs, _, err := fault.EnumerateFieldCases(p.scn, p.deviator, p.classes, p.allIdx, false)
+		if err != nil {
+			fmt.Fprintln(os.Stderr, "INFRASTRUCTURE: honest run of", p.scn, "failed:", err)
+			os.Exit(2)
+		}
+		for _, c := range cs {
+			lf := strings.ToLower(c.Dev.Field)
+			if strings.Contains(lf, "dlnproof") || strings.Contains(lf, "dln_proof") || lf == "h1" || lf == "h2" || strings.Contains(lf, "tilde") {
+				cases = append(cases, c)
+			}
+		}
+		plans = append(plans, p)
+	}
 	// crafted relations: the deviator must be the last mover of its round in FIFO order (highest index
 	// of its committee) for "minus the sum of the others"
 	for _, cp := range []struct {
